@@ -8,6 +8,8 @@
 #include <fixedmath/fixed_math.hpp>
 #include <fixedmath/iostream.h>
 #include <sstream>
+#include <cerrno>
+#include <cfenv>
 #include <cstdio>
 #include <cstdlib>
 #include <cstring>
@@ -338,9 +340,31 @@ static bool eval(const std::string& fn, const std::string& tag, const std::vecto
   return false;
   }
 
+// "dirty" mode (HARNESS_DIRTY=1): every operation is evaluated, then the ambient state a pure function must not depend on
+// is disturbed - errno set, floating-point status flags raised, a handful of other library calls made (the ones that
+// would leave a trace in a hidden cache: zero, negative and extreme arguments) - and the operation is evaluated AGAIN;
+// only the second result is printed.  The outputs must be identical to those of a clean run.
+static void disturb(unsigned long n)
+  {
+  // extreme and invalid arguments first ...
+  g_sink = sqrt(as_fixed(-65536)).v; g_sink = sqrt(as_fixed(589824)).v;
+  g_sink = sin_angle_aprox(2147483647).v; g_sink = cos_angle_aprox(-2147483647-1).v; g_sink = sqrt_aprox(as_fixed(65536)).v;
+  g_sink = atan_index_aprox(as_fixed(-1)).v; g_sink = asin(as_fixed(131072)).v;
+  g_sink = tan(as_fixed(102944)).v; g_sink = (as_fixed(1) / as_fixed(0)).v;
+  g_sink = fixed_t{std::numeric_limits<double>::quiet_NaN()}.v;
+  // ... zero arguments last: a cache that stores "no result" next to a stale key is left in that state
+  g_sink = sqrt(as_fixed(0)).v; g_sink = hypot(as_fixed(0), as_fixed(0)).v; g_sink = sin(as_fixed(0)).v; g_sink = asin(as_fixed(0)).v;
+  g_sink = atan(as_fixed(0)).v; g_sink = sqrt_aprox(as_fixed(0)).v; g_sink = sin_angle_aprox(0).v; g_sink = cos_angle_aprox(0).v;
+  g_sink = atan_index_aprox(as_fixed(0)).v;
+  errno = (n & 1) ? EDOM : ERANGE;
+  std::feraiseexcept(FE_INVALID | FE_DIVBYZERO | FE_OVERFLOW | FE_UNDERFLOW | FE_INEXACT);
+  }
+
 int main(int argc, char** argv)
   {
   g_flush = std::getenv("HARNESS_FLUSH") != nullptr;
+  const bool dirty = std::getenv("HARNESS_DIRTY") != nullptr;
+  unsigned long line_no = 0;
   static char buf[1<<16];
   std::vector<i128> args;
   std::string fn, tag;
@@ -363,6 +387,13 @@ int main(int argc, char** argv)
       if(!*p || *p=='\n') break;
       args.push_back(parse_int(p));
       while(*p && *p!=' ' && *p!='\n') ++p;
+      }
+    if(dirty && fn != "early" && fn != "sqrt_backend")
+      { // first evaluation into the void, disturbance, second evaluation is the one reported
+      std::fflush(stdout);
+      FILE* keep = stdout; static FILE* devnull = std::fopen("/dev/null", "w");
+      stdout = devnull; eval(fn, tag, args); std::fflush(devnull); stdout = keep;
+      disturb(++line_no);
       }
     if(!eval(fn, tag, args)) std::puts("bad-op");
     if(g_flush) std::fflush(stdout);
